@@ -24,7 +24,8 @@ READING OF THE PROPERTY (stated, used by the oracles):
    indices follow Python's list indexing (still a member) and indices below -len raise IndexError (a refusal).
  * exact round trip for INTEGER / DISCRETE / CATEGORICAL: decode(encode(v)) == v for every feasible v, both with the
    index encoding and with the continuified encoding (real arithmetic for |fv - v|).
- * the float32 cast of `np.asarray(..., dtype)` / NumpyArraySpec.bounds is treated as the identity (documented accuracy
+ * a cast to float32 (`np.asarray(..., dtype)`, NumpyArraySpec.bounds, .astype) is an uninterpreted ROUNDING function, not the
+   identity (pyvc/spacekit.py r32); a cast to float64 is the identity on floats.  (Earlier revisions assumed the identity: documented accuracy
    loss of the default dtype; "to floating-point accuracy" in the property).
 """
 import json
@@ -54,7 +55,9 @@ LOGDOM = 'numpy.log.domain'
 ASSUMPTIONS = [
     'floats are extended reals fin(r)|+inf|-inf|nan (XReal): comparisons, clip, abs, isfinite, float()/int() are exact; inputs range over all reals, not only doubles',
     'machine arithmetic treated as mathematical (|fv - v| in the continuified decode, the LINEAR scaler, the label sign flip by *(-1))',
-    'the dtype cast of np.asarray(..., dtype=float32) and of NumpyArraySpec.bounds is treated as the identity (the float32 default loses accuracy by design; the property says "to floating-point accuracy")',
+    SK.R32_ASSUMPTION + '; consequences stated in the obligations: with a float32 converter labels round-trip to r32(value) ("up to the documented cast"), and '
+    'fixes_domain for continuified INTEGER / DISCRETE parameters is claimed for float32-representable feasible values only; the exact encode/decode round trip families run with float64',
+    SK.TRANS_ASSUMPTION,
     'array elements handed to _to_parameter_value have the dtype declared by the spec: floats for CONTINUOUS specs, integers for DISCRETE / ONEHOT_EMBEDDING specs (unembed_fn ends in .astype(spec.dtype); a float index makes list indexing raise TypeError, a refusal)',
     'parameter definitions are well formed (postcondition of ParameterConfig.factory proved by C16.factory.*): non-empty name, finite ordered bounds, '
     'DISCRETE feasible values finite, strictly ascending; CATEGORICAL feasible values pairwise distinct; at least one feasible value',
@@ -156,13 +159,15 @@ def exc_class(p):
     return E.class_name(p.value.cls) if p.kind == 'raise' else None
 
 
-def refusal_obligations(p, ptype, scale, name):
+def refusal_obligations(p, ptype, scale, name, dtype='float64'):
     """the converter constructor raised: the property allows a configuration that cannot be handled to be REFUSED with an error --
     here exactly one such configuration exists: a scaling converter for a LOG / REVERSE_LOG parameter with a non-positive bound"""
     run = p.run
     ok = z3.BoolVal(False)
     if p.kind == 'raise' and exc_class(p) == 'ValueError' and ptype == 'DOUBLE' and scale in ('LOG', 'REVERSE_LOG'):
-        lo, hi = xreal.r(run.dom.lo), xreal.r(run.dom.hi)
+        # the guard sees the bounds after the spec's dtype cast: with float32 a positive bound below the float32 underflow threshold
+        # casts to 0 and is refused as well (a refusal, allowed by the property)
+        lo, hi = xreal.r(cast_of(dtype, run.dom.lo)), xreal.r(cast_of(dtype, run.dom.hi))
         sc = E.zbool(run.opts.scale) if getattr(run, 'opts', None) is not None else z3.BoolVal(True)
         ok = z3.And(sc, z3.Or(lo <= 0, hi <= 0))
     return [(name, ok)]
@@ -191,7 +196,7 @@ def tpv_post(ptype, dtype, scale):
     def post(p):
         run = p.run
         if getattr(run, 'stage', '') != 'decode':
-            return refusal_obligations(p, ptype, scale, 'C15.__init__.refuses_only_nonpositive_log_bounds.' + T)
+            return refusal_obligations(p, ptype, scale, 'C15.__init__.refuses_only_nonpositive_log_bounds.' + T, dtype)
         dom, v, opts = run.dom, run.v, run.opts
         n = dom.fv.n if dom.fv is not None else (dom.hi - dom.lo + 1 if T == 'INTEGER' else None)
         out = []
@@ -219,15 +224,37 @@ def tpv_post(ptype, dtype, scale):
             want = fv_at(dom, z3.If(v < 0, v + n, v))
             out.append(('C15._to_parameter_value.fixes_domain.' + T, same_value(val, want)))
         else:
+            # with a float32 converter the feasible values are compared after the cast r32: a point of the domain is a fixed point of
+            # the decode only if the feasible values are float32-representable (stated precondition; r32 is not the identity)
+            pre = representable32(dom) if dtype == 'float32' else z3.BoolVal(True)
+            hyp = z3.And(SK.member(dom, v), pre)
             if T == 'INTEGER' and getattr(run, 'arg_log', None):
                 # proof hint (checked, then used): instantiate the minimality of np.argmin at the position of v itself
                 which, a, idx, g = run.arg_log[-1]
                 j0 = z3.ToInt(xreal.r(v)) - dom.lo
                 out.append(('C15._to_parameter_value.fixes_domain.%s.hint_argmin_at_v' % T,
-                            z3.Implies(SK.member(dom, v), z3.And(g(j0) == xreal.fin(z3.RealVal(0)), z3.Not(xreal.lt(g(j0), g(idx))))), 'lemma'))
-            out.append(('C15._to_parameter_value.fixes_domain.' + T, z3.Implies(SK.member(dom, v), same_value(val, v))))
+                            z3.Implies(hyp, z3.And(g(j0) == xreal.fin(z3.RealVal(0)), z3.Not(xreal.lt(g(j0), g(idx))))), 'lemma'))
+            out.append(('C15._to_parameter_value.fixes_domain.' + T, z3.Implies(hyp, same_value(val, v))))
         return out
     return post
+
+
+def representable32(dom):
+    """every feasible value of the domain survives a cast to float32 unchanged"""
+    if dom.ptype == 'INTEGER':
+        return z3.And(dom.lo >= -SK.TWO24, dom.hi <= SK.TWO24)
+    if dom.ptype == 'DISCRETE':
+        j = z3.Int('j!rep32')
+        t = xreal.r(dom.fv.arr[j])
+        return z3.ForAll([j], z3.Implies(z3.And(j >= 0, j < dom.fv.n), SK.r32(t) == t), patterns=[SK.r32(t)])
+    return z3.BoolVal(True)
+
+
+def cast_of(dtype, v):
+    """the value of v after the converter's dtype cast (float64: unchanged)"""
+    if dtype != 'float32':
+        return v
+    return z3.If(xreal.is_fin(v), xreal.fin(SK.r32(xreal.r(v))), v)
 
 
 def fv_at(dom, i):
@@ -317,7 +344,7 @@ def rt_post(ptype, dtype, scale):
         run = p.run
         stage = getattr(run, 'stage', '')
         if stage == 'init':
-            return refusal_obligations(p, ptype, scale, 'C15.__init__.refuses_only_nonpositive_log_bounds.' + T)
+            return refusal_obligations(p, ptype, scale, 'C15.__init__.refuses_only_nonpositive_log_bounds.' + T, dtype)
         if p.kind == 'raise':
             return [('C15.roundtrip.no_raise.' + T, z3.BoolVal(False))]
         out = [('C15.roundtrip.no_raise.' + T, z3.BoolVal(True))]
@@ -389,7 +416,7 @@ def tpvs_post(ptype, dtype, scale):
     def post(p):
         run = p.run
         if getattr(run, 'stage', '') != 'decode':
-            return refusal_obligations(p, ptype, scale, 'C15.__init__.refuses_only_nonpositive_log_bounds.' + T)
+            return refusal_obligations(p, ptype, scale, 'C15.__init__.refuses_only_nonpositive_log_bounds.' + T, dtype)
         if p.kind == 'raise':
             # the only refusals: a one-hot block without columns cannot occur (num_dimensions >= 1)
             return [('C15.to_parameter_values.no_raise.' + T, z3.BoolVal(False))]
@@ -608,13 +635,14 @@ def labels_post(dtype, goal, raise_missing):
         flipped = z3.And(flip, z3.BoolVal(G == 'MINIMIZE'))
         l0 = lab.at(0, 0)
         # model form: the value itself, negated iff the metric is minimised and the converter flips minimisation metrics
-        out.append(('C15.labels.convert.sign.' + G, l0 == z3.If(flipped, xreal.neg(v), v)))
+        cv = cast_of(dtype, v)          # labels are stored in the converter's dtype: equal up to the documented float32 cast
+        out.append(('C15.labels.convert.sign.' + G, l0 == z3.If(flipped, xreal.neg(cv), cv)))
         # and back: the original value (finite values); NaN and +-inf labels are reported as None
         m0 = mets[0]
         if m0 is None:
             out.append(('C15.labels.sign_roundtrip.' + G, z3.Not(xreal.is_fin(v))))
         elif isinstance(m0, Obj) and E.class_name(m0.cls) == 'Metric':
-            out.append(('C15.labels.sign_roundtrip.' + G, z3.And(xreal.is_fin(v), xreal.lift(m0.attrs['value']) == v)))
+            out.append(('C15.labels.sign_roundtrip.' + G, z3.And(xreal.is_fin(v), xreal.lift(m0.attrs['value']) == cv)))
         else:
             out.append(('C15.labels.sign_roundtrip.' + G, z3.BoolVal(False)))
         if not raise_missing:
@@ -705,6 +733,89 @@ def replay_onehot(dtype, arbitrary):
             job['indices'] = [ev(run.x.at(i, 0)).as_long() for i in range(rows)]
         return run_replay(job)
     return on_violation
+
+
+# =========================================================================================== bounded native model search (open obligations)
+_SEARCH = {}
+STRIP = ('C15._to_parameter_value.', 'C15.roundtrip.', 'C15.onehot.', 'C15.scaler.', 'C15.features.', 'C15.__init__.')
+
+
+def native_search(kind, driver=None):
+    """one run of `<driver> search <kind>` on the real code (cached): {clause key: {'job', 'output'}}"""
+    driver = driver or REPLAY
+    key = (driver, kind, os.environ.get('VERIF_REPO'))
+    if key not in _SEARCH:
+        res, verdict, err = K.collect_native(K.start_native(['search', kind], 'search_' + kind, driver=driver), timeout=300)
+        _SEARCH[key] = (res or {}).get('found', {}) if res is not None else {}
+    return _SEARCH[key]
+
+
+def search_key(name):
+    for pre in STRIP:
+        if name.startswith(pre):
+            k = name[len(pre):]
+            if k.startswith('exact.') or k.startswith('real_arithmetic.'):
+                k = 'roundtrip.' + k.split('.', 1)[1]
+            return k
+    return name.split('.', 1)[1] if '.' in name else name
+
+
+def kind_of(fname):
+    if 'convert+to_parameter_values' in fname:
+        return 'roundtrip'
+    if '_to_parameter_value' in fname:
+        return 'tpv'
+    if 'onehot' in fname:
+        return 'onehot'
+    if 'scaler_from_spec' in fname:
+        return 'scaler'
+    return None
+
+
+SYNTH = {'tpv': lambda k: 'C15._to_parameter_value.' + k,
+         'onehot': lambda k: 'C15.onehot.' + k,
+         'scaler': lambda k: 'C15.scaler.' + k,
+         'roundtrip': lambda k: ('C15.roundtrip.%s.%s' % ('real_arithmetic' if k.endswith('DOUBLE') else 'exact', k.split('.', 1)[1])) if k.startswith('roundtrip.')
+         else ('C15.onehot.' + k if k.startswith('exactly_one') else 'C15.features.' + k if k.startswith('unit_interval') else 'C15.roundtrip.' + k)}
+
+
+def refuter(kind, driver=None, key_fn=None):
+    """DESIGN 2.5 model query, done natively: for obligations the proof query left open (solver unknown, or a counter-model that does not
+    replay) a bounded family of concrete instances is run on the real code; a failing instance is a reproduced violation, none leaves the
+    obligation undecided"""
+    if kind is None:
+        return None
+    key_fn = key_fn or search_key
+
+    def refute(open_names):
+        found = native_search(kind, driver)
+        out = {}
+        pack = lambda hit: ('bounded native search (%s) on the real code:\n%s' % (kind, json.dumps(hit, default=repr)[:3000]),
+                            {'job': hit['job'], 'native_output': hit['output'], 'cmd': '/venv/bin/python %s search %s' % (driver or REPLAY, kind)}, True)
+        used = set()
+        for n in open_names:
+            k = key_fn(n)
+            hit = found.get(k)
+            if hit is not None and '.hint_' not in n:
+                out[n] = pack(hit)
+                used.add(k)
+        # clauses the unbounded run did not get to state (the real code left the supported subset): a natively failing instance is
+        # still a reproduced violation (verify_function reports these only for names it did not generate itself)
+        for k, hit in found.items():
+            if k not in used and kind in SYNTH:
+                out.setdefault(SYNTH[kind](k), pack(hit))
+        return out
+    return refute
+
+
+def dedupe_violations(chk):
+    """one VIOLATION line per obligation name (several families may refute the same named obligation): the reproduced one wins"""
+    best = {}
+    for line in chk.violations:
+        name = line.split('obligation=', 1)[1].split(' ')[0]
+        if name not in best or (best[name].endswith('no-failing-input-found') and not line.endswith('no-failing-input-found')):
+            best[name] = line
+    chk.violations = list(best.values())
 
 
 # =========================================================================================== driver
@@ -818,7 +929,7 @@ def main(tier):
             E.MODELS[TPV_KEY] = _decode_contract
         try:
             fr = verify.verify_function(Scoped(chk), fname, entry, post, known=known, on_violation=onv, witness_terms=witness_terms,
-                                        timeout_ms=timeout, deadline_s=120, only=only)
+                                        timeout_ms=timeout, deadline_s=120, only=only, refute=refuter(kind_of(fname)))
         finally:
             E.MODELS.pop(TPV_KEY, None)
         inlined |= fr.inlined
@@ -865,4 +976,5 @@ def main(tier):
                                replay={'cmd': '/venv/bin/python %s standin_logscale %s' % (REPLAY, tier)}, reproduced=True)
         elif fw:
             chk.note('the recorded REVERSE_LOG wide-range finding no longer shows on the grid (known_findings.d/C15.json can be marked fixed)')
+    dedupe_violations(chk)
     return chk.finish(min_obligations=60, inventory=INVENTORY)
